@@ -13,8 +13,11 @@
      SetSlice/randSize build fresh slices), so an array object is just a list of element headers.
      Element cells ( *VMValue ) are never written in place by the VM (only replaced), therefore cell
      identity is not modelled.  The one place where Go looks at cell identity is the `a == b`
-     pointer shortcut of ValueEqual, which matters only for cyclic structures: there the model's
-     structural comparison runs out of fuel instead (Go: true, or a fatal stack overflow).
+     pointer shortcut of ValueEqual.  Two headers of the SAME array / dict object always compare
+     equal in Go (all their element pointers are identical), which `value_equal` reproduces by
+     comparing ids first; for two different objects the shortcut can only fire on a shared cell,
+     whose two sides are then the same header, equal under the id rule as well.  Two DISTINCT
+     cyclic objects make Go recurse until the stack is exhausted: the model runs out of fuel.
    * variable scopes (Context.Attrs), dict bodies and attribute maps of computed values are
      `vmap`s: insertion-ordered association lists living in the heap (they are shared by
      reference: ComputedExecute runs a sub-VM directly on the computed value's map).
@@ -296,6 +299,7 @@ Fixpoint value_equal (fuel : nat) (fn : fnames) (h : heap) (a b : value) : optio
     | VFunc x, VFunc y => Some (x =? y)%N             (* *FunctionData pointers *)
     | VNative x _, VNative y _ => Some (String.eqb x y)   (* NativeFunc code pointers; Self ignored *)
     | VArr x, VArr y =>
+      if (x =? y)%N then Some true else                 (* same *ArrayData: every element pointer-equal *)
       let l1 := get_arr x h in
       let l2 := get_arr y h in
       if negb (Nat.eqb (length l1) (length l2)) then Some false
@@ -310,6 +314,7 @@ Fixpoint value_equal (fuel : nat) (fn : fnames) (h : heap) (a b : value) : optio
               | _, _ => Some true
               end) l1 l2
     | VDict x, VDict y =>
+      if (x =? y)%N then Some true else                 (* same *DictData *)
       let m1 := get_map x h in
       let m2 := get_map y h in
       if negb (Nat.eqb (length m1) (length m2)) then Some false
